@@ -122,7 +122,11 @@ def check(model, tier):
             if hook == "transfer":
                 ok2 = len(c.args) >= 3 and src(c.args[2]) in f.params
                 capd = env_at(p, j).get(c.args[1].id) if len(c.args) > 1 and isinstance(c.args[1], ast.Name) else None
-                ok2 = ok2 and isinstance(capd, tuple) and capd[0] == "capture" and capd[2] == ("destination",)
+                is_dest = isinstance(capd, tuple) and capd[0] == "capture" and capd[2] == ("destination",)
+                if not is_dest and len(c.args) > 1:
+                    rb = resolve_name(p, c.args[1].id, j) if isinstance(c.args[1], ast.Name) else c.args[1]
+                    is_dest = isinstance(rb, ast.expr) and src(rb) == f"{orig}.destination"
+                ok2 = ok2 and is_dest
                 if ok2:
                     run.ok("R07.3", inst + ":destination")
                 else:
@@ -218,6 +222,10 @@ def check(model, tier):
             for j, c in path_calls(p, ia):
                 if call_attr(c) in ("get_join_identity_payload", "get_doomed_payload") and isinstance(c.func, ast.Attribute):
                     recv = src(c.func.value)
+                    if isinstance(c.func.value, ast.Name):
+                        rb = resolve_name(p, c.func.value.id, j)
+                        if isinstance(rb, ast.expr):
+                            recv = src(rb)
                     inst = f"{arm}:{call_attr(c)}"
                     if recv not in good:
                         run.fail("R07.7", inst, f"the {arm} arm takes a trivial payload from `{recv}`; the node lives in `{sorted(good)[0]}`, so the payload must come from that engine", fi=f, node=c)
